@@ -407,6 +407,14 @@ func main() {
 	}
 	// overlapping discoveries on one client, the second one with more replies than any plausible
 	// buffer pool holds
+	{
+		// more replies in one window than any plausible queue holds: 1100 controllers answer
+		big := twoDiscoveries(1100, 0)
+		big.Name += "/default-schedule"
+		big.DefaultOnly = true
+		big.Opt.Horizon = 20000
+		scenarios = append(scenarios, big)
+	}
 	for _, burst := range []int{3, 40} {
 		sc := twoDiscoveries(burst, 1)
 		if burst > 10 {
@@ -424,7 +432,7 @@ func main() {
 	if r.Worker == "" && r.Replay == "" {
 		vs.Run(nil, nil, vs.Options{}, func() { mappingSweep(r) })
 	}
-	r.Rule("every sequence of 0..2 datagrams over 12 classes (valid A/B, duplicate, 6 and 63 bytes, 65 and 1100 bytes with a well-formed 64-byte prefix, wrong protocol id, wrong function code, function code 0xff, non-BCD and calendar-invalid date), every 2-datagram sequence also through a client built with debug = true, x 5 arrival times (0.1T, 0.5T, T-e, T, T+e), every 3-datagram class sequence at two fixed time patterns (thorough: also every 3-datagram sequence at every arrival-time combination, simultaneous arrivals and 4 datagrams at two time patterns), broadcast address unset / port 60005, each under all interleavings of the reader goroutine and the sleeping caller within the preemption bound; two overlapping GetDevices calls on one client, the second receiving 3 / 40 replies in the instant the first one's window ends (<= 1 preemption); plus a driver-level sweep of one reply through the result mapping (every byte value of address/mask/gateway/MAC/version/serial, all 65536 version, year and month-day byte pairs) x {unnamed + default port, named + port 60005}. distinct = distinct (entries, datagrams) labels")
+	r.Rule("every sequence of 0..2 datagrams over 12 classes (valid A/B, duplicate, 6 and 63 bytes, 65 and 1100 bytes with a well-formed 64-byte prefix, wrong protocol id, wrong function code, function code 0xff, non-BCD and calendar-invalid date), every 2-datagram sequence also through a client built with debug = true, x 5 arrival times (0.1T, 0.5T, T-e, T, T+e), every 3-datagram class sequence at two fixed time patterns (thorough: also every 3-datagram sequence at every arrival-time combination, simultaneous arrivals and 4 datagrams at two time patterns), broadcast address unset / port 60005, each under all interleavings of the reader goroutine and the sleeping caller within the preemption bound; two overlapping GetDevices calls on one client, the second receiving 3 / 40 replies in the instant the first one's window ends (<= 1 preemption), and 1100 replies on the default schedule; plus a driver-level sweep of one reply through the result mapping (every byte value of address/mask/gateway/MAC/version/serial, all 65536 version, year and month-day byte pairs) x {unnamed + default port, named + port 60005}. distinct = distinct (entries, datagrams) labels")
 	r.Assume("a reply with a calendar-invalid BCD date may be dropped or reported with the zero date (the property lists only non-BCD dates as malformed)")
 	r.Finish()
 }
